@@ -60,7 +60,8 @@ FIXED = {"LP": "(", "RP": ")", "DOT": ".", "DC": "::", "COLON": ":", "SEMI": ";"
 # further spellings tried at every viable prefix (in and out of range)
 EXTRA = ["INT=" + H("65535"), "INT=" + H("65536"), "INT=" + H("18446744073709551615"),
          "INT=" + H("18446744073709551616"), "INT=" + H("-1"), "HEX=" + H("0xffffffffffffffff"),
-         "HEX=" + H("0xfffffffffffffffff"), "IP4=" + H("01.2.3.4"), "IP4=" + H("255.255.255.255"),
+         "HEX=" + H("0xfffffffffffffffff"), "HEX=" + H("0x00000000000000035"), "HEX=" + H("0x" + "0" * 30 + "ffffffffffffffff"),
+         "HEX=" + H("0x" + "0" * 9 + "10000000000000000"), "IP4=" + H("01.2.3.4"), "IP4=" + H("255.255.255.255"),
          "STR=" + H("|f|"), "STR=", "STR=" + H("a|0d 0a|é")]
 
 
@@ -264,7 +265,8 @@ class Gen:
             return ["INT=" + H(r.choice(["0", "1", "80", "65535", "65536", "4294967296", "18446744073709551615",
                                           "18446744073709551616", "-1", "007"]))]
         if k == 3:
-            return ["HEX=" + H(r.choice(["0x0", "0x10", "0xFFff", "0xffffffffffffffff", "0x10000000000000000"]))]
+            return ["HEX=" + H(r.choice(["0x0", "0x10", "0xFFff", "0xffffffffffffffff", "0x10000000000000000", "0x00000000000000035",
+                                           "0x000000000000000000ffffffffffffffff", "0x0000010000000000000000"]))]
         ip = "IP4=" + H(r.choice(["1.2.3.4", "0.0.0.0", "255.255.255.255", "10.0.0.1", "01.2.3.4", "192.168.1.001"]))
         if r.random() < 0.5:
             return [ip, "COLON", "INT=" + H(r.choice(["0", "80", "443", "65535", "65536", "99999", "-1"]))]
